@@ -88,7 +88,9 @@ PROP = dict(
          "decides (a vertex has a positive gain into a part q with load[q] <= cap < load[q] + w, while a looser cap -- heaviest "
          "input part, or ideal over the loaded parts only -- would leave every worker headroom for it): `weightless_*` (a part "
          "holds no weight: unused id below the maximum or only zero-weight vertices) and `beyondtol_*` (input already beyond "
-         "the tolerance: heaviest part above (1+x)*ideal, Some(x) incl. Some(0.0)); one random case in ten runs with f64 vertex "
+         "the tolerance: heaviest part above (1+x)*ideal, Some(x) incl. Some(0.0)); `budgetsum_*` (one random case in ten): 5/7/8/10/11 vertices on 2..4 workers with a shorter last chunk, one positive-gain "
+         "mover per chunk into the same part, each weighing in (headroom/tc, headroom*ipt/len], cap set by None or Some(x) -- the "
+         "SUM of the per-thread budgets decides; one random case in ten runs with f64 vertex "
          "weights (fractions of the integer ones): no replay, only the weight-independent clauses are checked on its output; distinct = distinct (graph, weights, "
          "partition, pool, cap, recorded schedule); non-trivial = at least two workers and at least one vertex moved",
     class_names={0: "Ok, no move", 1: "Ok, moved", 2: "panic", 3: "hang", 4: "outside the contract", 5: "error",
